@@ -20,7 +20,7 @@ def _sample(gen, limit_quick, limit_thorough):
 
 
 class Cross(Prop):
-    own_gens = [gen_walk.gen_walk_corpus, gen_walk.gen_walk_corrupt, gen_walk.gen_walk_generated]
+    own_gens = [gen_walk.gen_walk_corpus, gen_walk.gen_walk_corrupt, gen_walk.gen_walk_generated, gen_walk.gen_align_stress]
 
     @property
     def gens(self):
@@ -55,10 +55,12 @@ class C01(Cross):
 
     def bad(self, op, impl):
         k = klass(impl)
-        if k == "crash" and not STACK.search(impl) and MEM.search(impl):
-            return "memory fault in the implementation: %s" % impl[:300]
-        if k == "crash" and not STACK.search(impl) and "SIGABRT" in impl and "panic" not in impl:
-            return "abort in the implementation (UB check): %s" % impl[:300]
+        if k == "crash" and not STACK.search(impl):
+            # SIGSEGV / SIGBUS = access outside the guarded buffer; SIGABRT that is not a stack
+            # overflow = a non-unwinding panic, i.e. one of the checked build's UB precondition checks
+            # (misaligned pointer dereference, slice::from_raw_parts, get_unchecked, …): ordinary
+            # panics are caught by the harness and reported as `panic`, never as a crash
+            return "memory fault / UB check abort in the implementation: %s" % impl[:400]
         if k != "crash" and ("OUTSIDE(" in impl or "MISALIGNED" in impl):
             return "returned reference outside the buffer or misaligned: %s" % impl[:300]
         return None
